@@ -360,8 +360,38 @@ pub fn gen_alpha_update(
     allow_extreme: bool,
 ) -> Vec<f64> {
     let r = rng.unit();
-    if r < 0.25 && !visited.is_empty() {
+    if r < 0.22 && !visited.is_empty() {
         return rng.pick(visited).clone();
+    }
+    // incremental history: nudge a subset of the components of the parameters in effect
+    // (the last applied vector, whatever it was — huge, tiny or ordinary) by a relative
+    // amount between one ulp and ten percent
+    if r < 0.36 && !visited.is_empty() {
+        let prev = visited.last().unwrap();
+        let k_only = rng.usize_in(0, prev.len().max(1) - 1);
+        let all = rng.chance(0.3);
+        return prev
+            .iter()
+            .enumerate()
+            .map(|(k, a)| {
+                if all || k == k_only {
+                    let d = rng.log_uniform(-17.0, -1.0);
+                    let v = if rng.chance(0.5) { a * (1.0 + d) } else { a * (1.0 - d) };
+                    // make sure the value really differs where the nudge is below one ulp
+                    let v = if v == *a && rng.chance(0.7) {
+                        match width {
+                            Width::F64 => f64::from_bits(a.to_bits().wrapping_add(1)),
+                            Width::F32 => f32::from_bits((*a as f32).to_bits().wrapping_add(1)) as f64,
+                        }
+                    } else {
+                        v
+                    };
+                    rw(width, v)
+                } else {
+                    *a
+                }
+            })
+            .collect();
     }
     let extreme = allow_extreme && r > 0.90;
     // an extreme update hits either every parameter or a single one (so that e.g. a
